@@ -388,7 +388,11 @@ func c12GRPC(c *ctx) {
 	}
 	defer b.srv.Stop()
 	addr := fmt.Sprintf("127.0.0.1:%d", freePort())
-	rg, err := newRig(c, "aclgrpc", []string{"-proxy.addr", addr + ";proto=grpc", "-log.level", "WARN"})
+	gdir := filepath.Join(c.Dir, "c12g")
+	os.MkdirAll(gdir, 0o755)
+	gh := sha1.Sum([]byte("s3cret"))
+	os.WriteFile(filepath.Join(gdir, "ht"), []byte("alice:{SHA}"+base64.StdEncoding.EncodeToString(gh[:])+"\n"), 0o600)
+	rg, err := newRig(c, "aclgrpc", []string{"-proxy.addr", addr + ";proto=grpc", "-proxy.auth", "name=basic1;type=basic;file=" + filepath.Join(gdir, "ht") + ";realm=verif", "-log.level", "WARN"})
 	if err != nil {
 		c.R.Inconcl("cannot start the gRPC fabio: %v", err)
 		return
@@ -401,6 +405,7 @@ func c12GRPC(c *ctx) {
 		fmt.Sprintf("route add allowonly10 /pkg.Allow10 %s opts \"proto=grpc allow=ip:10.0.0.0/8\"", up),
 		fmt.Sprintf("route add denylo /pkg.DenyLo %s opts \"proto=grpc deny=ip:127.0.0.0/8\"", up),
 		fmt.Sprintf("route add authx /pkg.AuthX %s opts \"proto=grpc auth=nosuch\"", up),
+		fmt.Sprintf("route add authb /pkg.AuthB %s opts \"proto=grpc auth=basic1\"", up),
 	}, "\n"))
 	if err := rg.barrier(); err != nil {
 		c.R.Inconcl("barrier: %v", err)
@@ -416,16 +421,26 @@ func c12GRPC(c *ctx) {
 		return
 	}
 	defer cc.Close()
+	basic := func(u, p string) []string {
+		return []string{"authorization", "Basic " + base64.StdEncoding.EncodeToString([]byte(u+":"+p))}
+	}
 	for i, tc := range []struct {
 		method string
 		admit  bool
 		why    string
-	}{{"/pkg.Open/Do", true, "no rule"}, {"/pkg.Allowed/Do", true, "allow=ip:127.0.0.0/8, peer 127.0.0.1"}, {"/pkg.Allow10/Do", false, "allow=ip:10.0.0.0/8, peer 127.0.0.1"},
-		{"/pkg.DenyLo/Do", false, "deny=ip:127.0.0.0/8, peer 127.0.0.1"}, {"/pkg.AuthX/Do", false, "auth=nosuch (unknown scheme)"}, {"/pkg.Allow10/Do", false, "allow=ip:10.0.0.0/8, peer 127.0.0.1"}} {
+		md     []string
+	}{{"/pkg.Open/Do", true, "no rule", nil}, {"/pkg.Allowed/Do", true, "allow=ip:127.0.0.0/8, peer 127.0.0.1", nil}, {"/pkg.Allow10/Do", false, "allow=ip:10.0.0.0/8, peer 127.0.0.1", nil},
+		{"/pkg.DenyLo/Do", false, "deny=ip:127.0.0.0/8, peer 127.0.0.1", nil}, {"/pkg.AuthX/Do", false, "auth=nosuch (unknown scheme)", nil}, {"/pkg.Allow10/Do", false, "allow=ip:10.0.0.0/8, peer 127.0.0.1", nil},
+		{"/pkg.AuthX/Do", false, "auth=nosuch (unknown scheme), credentials sent", basic("alice", "s3cret")},
+		{"/pkg.AuthB/Do", false, "auth=basic1, no credentials", nil}, {"/pkg.AuthB/Do", false, "auth=basic1, wrong password", basic("alice", "wrong")},
+		{"/pkg.AuthB/Do", true, "auth=basic1, right credentials", basic("alice", "s3cret")}, {"/pkg.AuthB/Do", false, "auth=basic1, unknown user", basic("mallory", "s3cret")},
+		{"/pkg.Allowed/Do", false, "allow=ip:127.0.0.0/8, peer 127.0.0.1 forwarding for 8.8.8.8", []string{"x-forwarded-for", "8.8.8.8"}},
+		{"/pkg.Allowed/Do", true, "allow=ip:127.0.0.0/8, peer 127.0.0.1 forwarding for 127.0.0.9", []string{"x-forwarded-for", "127.0.0.9"}},
+		{"/pkg.Open/Do", true, "no rule, credentials and a forwarding chain sent", append(basic("x", "y"), "x-forwarded-for", "8.8.8.8, 9.9.9.9")}} {
 		id := fmt.Sprintf("aclg%d", i)
 		scripts.Store(id, &c16Script{Msgs: [][]byte{{}}})
 		before := b.calls.Load()
-		ctx, cancel := context.WithTimeout(metadata.AppendToOutgoingContext(context.Background(), "x-verif-id", id), 10*time.Second)
+		ctx, cancel := context.WithTimeout(metadata.AppendToOutgoingContext(context.Background(), append([]string{"x-verif-id", id}, tc.md...)...), 10*time.Second)
 		var reply []byte
 		req := []byte{}
 		err := cc.Invoke(ctx, tc.method, &req, &reply, grpc.ForceCodec(rawCodec{}))
